@@ -15,9 +15,8 @@ EXPLANATION = (
     "expected value from html.unescape (stdlib)."
 )
 BOUNDS = {
-    "quick": "paragraph: t = 2 free characters; the other six contexts (heading, emphasis, link text, image alt, link title, table cell): "
-             "t = 1 free character and t = 'a'+free+'b'; references: 8 numeric prefixes x 1 free digit, 14 named, in 4 contexts",
-    "thorough": "t = 2 free characters in all seven contexts, 3 in paragraph; commonmark and js-default",
+    "quick": "paragraph: t = 2 free characters; the other 12 contexts (heading, emphasis, strong, link text, image alt, link titles in three spellings, table head/body cell, list item, strikethrough): t = 1 free character, six of them also t = 'a'+free+'b'; image alt also under commonmark; references: 8 numeric prefixes x 1 free digit in 4 contexts, 22 named references in 2 contexts",
+    "thorough": 'all quick jobs (core) plus the deeper families of thorough_extra() (not core): more free characters, the commonmark preset, the contexts the quick tier had to shed (DESIGN.md 10.5)',
 }
 OUTSIDE = "t longer than 3; arbitrary code points through the reference form; typographer on; entity names beyond the menu"
 ASSUMPTIONS = ["t single-line without CR/NUL, t == t.strip() (except link-title context)", "typographer off",
